@@ -2610,7 +2610,9 @@ class SQLiteDialect(default.DefaultDialect):
     @reflection.cache
     def get_pk_constraint(self, connection, table_name, schema=None, **kw):
         constraint_name = None
-        table_data = self._get_table_sql(connection, table_name, schema=schema)
+        table_data = self._mask_string_literals(
+            self._get_table_sql(connection, table_name, schema=schema)
+        )
         if table_data:
             PK_PATTERN = r'CONSTRAINT\s+(?:"(.+?)"|(\w+))\s+PRIMARY\s+KEY'
             result = re.search(PK_PATTERN, table_data, re.I)
@@ -2704,7 +2706,9 @@ class SQLiteDialect(default.DefaultDialect):
             for fk in fks.values()
         }
 
-        table_data = self._get_table_sql(connection, table_name, schema=schema)
+        table_data = self._mask_string_literals(
+            self._get_table_sql(connection, table_name, schema=schema)
+        )
 
         def parse_fks():
             if table_data is None:
@@ -2810,6 +2814,21 @@ class SQLiteDialect(default.DefaultDialect):
         else:
             return ReflectionDefaults.foreign_keys()
 
+    _quoted_name_or_string_literal = re.compile(
+        r"""("(?:[^"]|"")*"|\[[^\]]*\]|`(?:[^`]|``)*`)|'(?:[^']|'')*'"""
+    )
+
+    def _mask_string_literals(self, table_data):
+        """empty the string literals (e.g. of a DEFAULT clause) of a CREATE
+        TABLE statement, so that the regular expressions that look for
+        constraint clauses do not match text inside of them; delimited
+        identifiers are kept as they are."""
+        if table_data is None:
+            return None
+        return self._quoted_name_or_string_literal.sub(
+            lambda m: m.group(1) or "''", table_data
+        )
+
     def _find_cols_in_sig(self, sig):
         for match in re.finditer(r'(?:"(.+?)")|([a-z0-9_]+)', sig, re.I):
             yield match.group(1) or match.group(2)
@@ -2831,8 +2850,8 @@ class SQLiteDialect(default.DefaultDialect):
             sig = tuple(idx["column_names"])
             auto_index_by_sig[sig] = idx
 
-        table_data = self._get_table_sql(
-            connection, table_name, schema=schema, **kw
+        table_data = self._mask_string_literals(
+            self._get_table_sql(connection, table_name, schema=schema, **kw)
         )
         unique_constraints = []
 
